@@ -2,6 +2,9 @@ import ChythonModel.Proofs.C02Paren
 import ChythonModel.Proofs.C02Heap
 import ChythonModel.Proofs.C02Lex
 import ChythonModel.Proofs.C02Chain
+import ChythonModel.Proofs.C02Rounds
+import ChythonModel.Proofs.C02Pairing
+import ChythonModel.Proofs.C02Writer
 /-!
 # C02 — SMILES write then read is lossless; canonical strings never collide
 
@@ -71,6 +74,32 @@ example : cyclesWF [] [] [[1], [2], [1, 3], [2, 3]] = true ∧
     (castSeq [[1], [2], [1, 3]] [] initialHeap).toOption = some ([(1, 1), (2, 2), (3, 3)], 1 :: (initialHeap.drop 3)) := by
   decide
 
+/-- **closure_pairing**: let the allocator of `_smiles` number the cycles of any well-formed traversal and let every
+    closure atom carry the numbers of its cycles in ANY order (the writer sorts them by number).  A reader that pairs
+    closure digits by NUMBER (an open number closes a ring, any other opens one) forms exactly the bonds — same atoms,
+    same order — as pairing the two ends of each cycle by the writer's cycle IDENTITY; the table of still-open closures
+    corresponds too.  This is the step "number reuse never makes the parser pair the wrong atoms". -/
+theorem closure_pairing (As : List CAtom) (casted : List (Nat × Nat)) (heap : List Nat)
+    (hwf : cyclesWF [] [] (As.map (·.alloc)) = true)
+    (hA : ∀ t ∈ As, t.rd.Nodup ∧ ∀ c, c ∈ t.rd ↔ c ∈ t.alloc)
+    (h : castSeq (As.map (·.alloc)) [] initialHeap = .ok (casted, heap)) :
+    let f := fun c => (casted.lookup c).getD 0
+    let evs := As.flatMap fun t => evAtom t.n t.rd
+    pairAll [] (evs.map fun e => (e.1, f e.2)) = (mapKeys f (pairAll [] evs).1, (pairAll [] evs).2) :=
+  pairing_by_number As casted heap hwf hA h
+
+/-- non-trivial instance: three cycles on four atoms where number 1 is reused (`C1..C12..C1..C2`-like): hypotheses hold,
+    pairing by number gives the bonds 10–12, 12–13, 11–13 like pairing by identity -/
+example :
+    let As : List CAtom := [⟨10, [1], [1]⟩, ⟨11, [2], [2]⟩, ⟨12, [1, 3], [3, 1]⟩, ⟨13, [2, 3], [3, 2]⟩]
+    cyclesWF [] [] (As.map (·.alloc)) = true ∧ (∀ t ∈ As, t.rd.Nodup ∧ ∀ c, c ∈ t.rd ↔ c ∈ t.alloc) ∧
+    (castSeq (As.map (·.alloc)) [] initialHeap).toOption.map (·.1) = some [(1, 1), (2, 2), (3, 3)] ∧
+    (pairAll [] (As.flatMap fun t => evAtom t.n t.rd)).2 = [(10, 12), (12, 13), (11, 13)] := by
+  refine ⟨by decide, ?_, by decide, by decide⟩
+  intro t ht
+  simp only [List.mem_cons, List.not_mem_nil, or_false] at ht
+  rcases ht with rfl | rfl | rfl | rfl <;> refine ⟨by decide, ?_⟩ <;> intro c <;> simp <;> omega
+
 /-! ## 3. parentheses -/
 
 /-- **paren_balance**: the text of one component — `emit` applied to the flattening of ANY DFS tree (`edges`), with any
@@ -109,7 +138,64 @@ theorem chain_roundtrip_skeleton (m : Mol) (opts : Opts) (rs : List Round) (h : 
     chainRead (joinRounds rs) = some (rs.flatMap fun r => r.smi.filterMap FTok.bond?) :=
   skRead_rounds m opts rs h none false (Or.inl rfl)
 
-/-! ## 5. injectivity from losslessness -/
+/-! ## 5. the same for the whole writer `smilesRounds` -/
+
+/-- **paren_balance** for everything `_smiles` returns: balanced, never negative, depth 0 at every dot -/
+theorem writer_paren_balance (m : Mol) (env : Env) (opts : Opts) (rs : List Round) (order : List Nat)
+    (h : smilesRounds m env opts = .ok (rs, order)) : parensOk (joinRounds rs) = true := by
+  have := joinRounds_balanced m opts rs (smilesRounds_spec m env opts rs order h).1
+  simp [parensOk, this]
+
+/-- **chain_roundtrip** for everything `_smiles` returns: the chain bonds a reader forms are the DFS tree bonds -/
+theorem writer_chain_roundtrip (m : Mol) (env : Env) (opts : Opts) (rs : List Round) (order : List Nat)
+    (h : smilesRounds m env opts = .ok (rs, order)) :
+    chainRead (joinRounds rs) = some (rs.flatMap fun r => r.smi.filterMap FTok.bond?) :=
+  chain_roundtrip_skeleton m opts rs fun r hr => ((smilesRounds_spec m env opts rs order h).1 r hr).emittedRound
+
+/-- **closure_discipline** for everything `_smiles` returns: the closure numbers of all components come from ONE run of
+    the allocator over the concatenated cycle lists (numbers released in one component are reused in the next), so
+    `closure_discipline` and `closure_pairing` apply to the whole text whenever the traversal is well formed
+    (`cyclesWF`, evaluated by the driver on every case) -/
+theorem writer_numbering_is_one_allocator_run (m : Mol) (env : Env) (opts : Opts) (rs : List Round) (order : List Nat)
+    (h : smilesRounds m env opts = .ok (rs, order)) :
+    ∃ casted heap, castSeq (rs.flatMap roundCycles) [] initialHeap = .ok (casted, heap) ∧
+      (cyclesWF [] [] (rs.flatMap roundCycles) = true → Held casted heap ((rs.flatMap roundCycles).foldl toggle [])) := by
+  obtain ⟨h1, h2⟩ := smilesRounds_spec m env opts rs order h
+  obtain ⟨c, hp, hc⟩ := chained_castSeq m opts rs [] initialHeap h1 h2
+  refine ⟨c, hp, hc, fun hwf => ?_⟩
+  have := closure_discipline (rs.flatMap roundCycles) [] (by simpa using hwf) c hp hc
+  exact this
+
+/-- FULL statement of the lexical round trip for the writer (no hypothesis on the molecule).  It is FALSE for the model
+    as it mirrors the code: an aromatic-bonded halogen without any bracket reason is written `f`/`cl`/`br`/`i`, which
+    no tokenizer splits back (witness in `Findings/C02.lean`; such atoms are valence-invalid, see design/C02.md). -/
+def WriterTokenRoundtripFull : Prop :=
+  ∀ (m : Mol) (env : Env) (opts : Opts) (rs : List Round) (order : List Nat),
+    smilesRounds m env opts = .ok (rs, order) →
+    lex (renderAll (joinRounds rs)) = some ((joinRounds rs).filterMap toL)
+
+/-- **token_roundtrip** for everything `_smiles` returns, `_partial`: excluded class = molecules with an aromatic-bonded
+    F/Cl/Br/I written in lower case (`NoAromaticHalogen`).  For every other molecule, every style, every weight function,
+    every set-iteration order and every random draw sequence, the text lexes back to exactly the emitted tokens. -/
+theorem writer_token_roundtrip_partial (m : Mol) (env : Env) (opts : Opts) (rs : List Round) (order : List Nat)
+    (hAr : NoAromaticHalogen m opts) (h : smilesRounds m env opts = .ok (rs, order)) :
+    lex (renderAll (joinRounds rs)) = some ((joinRounds rs).filterMap toL) :=
+  token_roundtrip _ (writer_tokens_ok m env opts rs order hAr h)
+
+/-- the hypothesis is satisfiable by a non-trivial molecule: toluene-like `Cc(c)c` fragment (aromatic carbons, no halogen) -/
+example : NoAromaticHalogen ⟨[(1, { z := 6 }), (2, { z := 6 }), (3, { z := 6 })],
+    [(1, [(2, { order := 1 })]), (2, [(1, { order := 1 }), (3, { order := 4 })]), (3, [(2, { order := 4 })])]⟩ {} := by
+  intro n atom hat _ _ hz
+  simp only [Mol.atom?, List.lookup] at hat
+  split at hat
+  · cases hat; simp at hz
+  · split at hat
+    · cases hat; simp at hz
+    · split at hat
+      · cases hat; simp at hz
+      · simp at hat
+
+/-! ## 6. injectivity from losslessness -/
 
 /-- **injective_of_lossless**: for ANY writer, reader and equivalence `iso`: if reading what was written gives back an
     equivalent object for the two objects in question, then equal texts imply equivalent objects — "canonical strings
